@@ -3,7 +3,7 @@
 From Coq Require Import String List NArith Bool.
 From Coq Require Import Lia.
 From BFG Require Import Base.Chars Path.PathAlg Path.PathAlgProofs Path.PathAlgMk Path.PathAlgRt Path.PathAlgNested
-                        Path.PathAlgWf Path.PathAlgOrder Path.PathAlgTrees Path.PathAlgOps.
+                        Path.PathAlgWf Path.PathAlgOrder Path.PathAlgTrees Path.PathAlgOps Path.PathEnsure.
 Import ListNotations.
 
 (* Whatever string, root (plain or a base path) and flags the constructor accepts, the stored components
@@ -389,3 +389,22 @@ Proof. vm_compute. reflexivity. Qed.
 Example ex_reject : mk (STR "a/../..\x") (RRoot Srcdir) None None = None
                     /\ escapes 0 (split_seps (STR "a/../..\x")) = true.
 Proof. vm_compute. auto. Qed.
+
+(* The string-accepting entry point (Path.ensure = objutils.objectify with the constructor; behind relpath(),
+   generic_file(), source_file(), directory(), find_files() ...): a string denotes exactly the path the constructor
+   builds from it - every character counts, blanks at either end included -, a path object is handed back as it is,
+   and the strict form only ever rejects. *)
+Theorem C12_ensure_string : forall s r dd dir, ensure (TStr s) r dd dir false = mk s r dd dir.
+Proof. exact ensure_string. Qed.
+Print Assumptions C12_ensure_string.
+Theorem C12_ensure_path : forall p r dd dir, ensure (TPath p) r dd dir false = Some p.
+Proof. exact ensure_path. Qed.
+Print Assumptions C12_ensure_path.
+Theorem C12_ensure_strict : forall t r dd dir p,
+  ensure t r dd dir true = Some p -> ensure t r dd dir false = Some p /\ p_root p = rootarg_root r.
+Proof. exact ensure_strict. Qed.
+Print Assumptions C12_ensure_strict.
+Example ex_ensure_blank : exists p q,
+  ensure (TStr (STR " data ")) (RRoot Srcdir) None None true = Some p /\ suffix_str p = STR " data " /\
+  mk (STR "data") (RRoot Srcdir) None None = Some q /\ path_eqb p q = false.
+Proof. do 2 eexists. vm_compute. repeat split. Qed.
